@@ -50,6 +50,9 @@ type specTxn struct {
 	setup      bool
 	selKnown   bool
 	sel        map[uint32]bool
+	// a DeleteAll ran over a selection this interpreter could not reconstruct (known-finding taint, platform-
+	// defined filter, in-flight reservations): what the transaction deletes is unknown
+	unknownDeletes bool
 }
 
 type specColl struct {
@@ -926,7 +929,7 @@ func specCommit(cid string, sc *specColl, t *specTxn, o string, i int,
 				got, _ = strconv.Atoi(f[8:])
 			}
 		}
-		if got != want && !sc.staleKeys {
+		if got != want && !sc.staleKeys && !t.unknownDeletes {
 			fail("emit", "line %d: the transaction changed %d chunk(s) but %d commit(s) were emitted (%s)", i, want, got, clip(o, 100))
 		}
 		// ascending chunk order, each once
@@ -938,7 +941,7 @@ func specCommit(cid string, sc *specColl, t *specTxn, o string, i int,
 					if v <= prev {
 						fail("emit", "line %d: emitted chunks are not strictly ascending: %s", i, f)
 					}
-					if !chunks[uint32(v)] {
+					if !chunks[uint32(v)] && !sc.staleKeys && !t.unknownDeletes {
 						fail("emit", "line %d: a commit was emitted for chunk %d which the transaction did not touch", i, v)
 					}
 					prev = v
@@ -1493,6 +1496,10 @@ func specSelect(cid string, sc *specColl, t *specTxn, rest []string, o string, i
 	}
 	t.setup = true
 	if tainted[cid] || t.filterTaint || !t.selKnown {
+		if len(action) == 1 && action[0] == "deleteall" && o != "deleted=0" {
+			t.unknownDeletes = true
+			taint(cid, "unknown-selection")
+		}
 		return
 	}
 	want := sortedOffs(t.sel)
